@@ -18,10 +18,12 @@ def corpus():
         "run prop=C09 mode=constant rate=2/200ms intervalms=200 dur=2400 conc=10 body=1 sloweval=2:120",   # one slow tick must not speed up the rest
         "run prop=C09 mode=constant rate=1/1us dur=1200 conc=256 body=0",
         "run prop=C09 mode=constant rate=40/1s dist=regular intervalms=100 dur=700 conc=10",
+        # config-file stages: each stage's first tick comes no earlier than the durations of the stages before it
+        "run prop=C09 mode=file dur=4000 conc=3 file=c:200:2/100ms;c:200:2/100ms;c:200:2/100ms;c:200:2/100ms;c:200:2/100ms;c:200:2/100ms body=1",
         # a pool that takes tens of milliseconds to start: the tick grid is anchored at the first evaluation, not before it
         "run prop=C09 mode=constant rate=1/100ms intervalms=100 dur=600 conc=40000 body=0",
         "run prop=C09 mode=constant rate=1/50ms intervalms=50 dur=400 conc=80000 body=0",
-    ]
+    ] + __import__("vlib.props._plan", fromlist=["x"]).cli_corpus_for("C09")
 
 
 def generate(rng, tier):
@@ -41,6 +43,15 @@ def generate(rng, tier):
         else:
             out.append("run prop=C09 mode=gaussian freq=%d dist=none intervalms=%d dur=%d conc=20%s" % (iv, iv, dur, slow))
     return out
+
+
+def compare(rec):
+    if rec["case"].startswith("cli "):
+        from . import _plan
+        return _plan.cli_compare(rec)
+    if rec["model"] == "-":
+        return None
+    return None if rec["impl"] == rec["model"] else "model=%s impl=%s" % (rec["model"], rec["impl"])
 
 
 def nontrivial_key(rec):
